@@ -143,7 +143,8 @@ def run(tape, scenario):
         nonlocal t
         if parallel:
             from ebpfcat.lock import LockFile
-            ec.mbx_lock_file = LockFile("/run/ebpf/sim0", *ec.terminal_addr_range)
+            ec.mbx_lock_file = LockFile("/run/ebpf/sim0", ec.terminal_addr_range[0],
+                                          ec.terminal_addr_range[1] + 1)   # as ParallelEtherCat.run makes it
             await EtherCat.connect(ec)
         else:
             await ec.connect()
